@@ -16,7 +16,7 @@
    Events (what the harness logs from the wrapped implementation, same constructors):
      Evolve1 n t         evolve_1site(node n, .., tau = t)           t is the signed step in units of
      Evolve0 c t         evolve_0site on the bond (c, parent c)      the sweep argument (= step/2)
-     Evolve2 c t         evolve_2site(node c) : c merged with its parent
+     Evolve2 c p t       evolve_2site(node c) : c merged with its parent p
      QRUp c p            decompose_to_parent(c)       AbsorbUp c p      merge_to_parent(c, .)
      QRDown p i c        decompose_to_child(p, i)     AbsorbDown p i c  merge_to_child(p, i, .)
        (push_cano_to_child = QRDown;AbsorbDown      push_cano_to_parent = QRUp;AbsorbUp)
@@ -49,7 +49,7 @@ Definition linear (n : nat) : tree := lin 0 (n - 1).
 Inductive event :=
 | Evolve1 (n : nat) (t : Z)
 | Evolve0 (c : nat) (t : Z)
-| Evolve2 (c : nat) (t : Z)
+| Evolve2 (c p : nat) (t : Z)
 | QRUp (c p : nat)
 | AbsorbUp (c p : nat)
 | QRDown (p i c : nat)
@@ -109,12 +109,14 @@ Definition bwd_step (tau : Z) (s : mstate) : mstate :=
                                | None => [] end) (err s)
     else
       let i := f_i f + 1 in
-      match child_at ch i with
+      (* rchild = len(children) - 1 - ichild : the children are visited in DEcreasing index (fix 036c1e3) *)
+      let r := Z.of_nat (length ch) - 1 - i in
+      match child_at ch r with
       | None => mkS [] (out s ++ o1) true
       | Some c =>
         mkS (mkF (Some n) c (-1) :: mkF (f_par f) (f_node f) i :: rest)
-            (out s ++ o1 ++ [QRDown n (Z.to_nat i) (tid c); EnvParent n (Z.to_nat i) (tid c);
-                             Evolve0 (tid c) (- tau); AbsorbDown n (Z.to_nat i) (tid c)]) (err s)
+            (out s ++ o1 ++ [QRDown n (Z.to_nat r) (tid c); EnvParent n (Z.to_nat r) (tid c);
+                             Evolve0 (tid c) (- tau); AbsorbDown n (Z.to_nat r) (tid c)]) (err s)
       end
   end.
 
@@ -166,8 +168,24 @@ Fixpoint bwd (tau : Z) (par : option nat) (t : tree) : list event :=
     (fix go (i : nat) (l : list tree) : list event :=
        match l with
        | [] => []
+       | c :: l' => go (S i) l' ++
+                    [QRDown n i (tid c); EnvParent n i (tid c); Evolve0 (tid c) (- tau); AbsorbDown n i (tid c)]
+                    ++ bwd tau (Some n) c
+       end) O ch
+    ++ up_bwd n par
+  end.
+
+(* the backward sweep as it was before fix 036c1e3 (children in INcreasing index, like the forward sweep);
+   kept only to document why the step was not time-symmetric on branching trees *)
+Fixpoint bwd_inc (tau : Z) (par : option nat) (t : tree) : list event :=
+  match t with
+  | Node n ch =>
+    [Evolve1 n tau] ++
+    (fix go (i : nat) (l : list tree) : list event :=
+       match l with
+       | [] => []
        | c :: l' => [QRDown n i (tid c); EnvParent n i (tid c); Evolve0 (tid c) (- tau); AbsorbDown n i (tid c)]
-                    ++ bwd tau (Some n) c ++ go (S i) l'
+                    ++ bwd_inc tau (Some n) c ++ go (S i) l'
        end) O ch
     ++ up_bwd n par
   end.
@@ -194,7 +212,7 @@ Fixpoint fwd2 (tau : Z) (isroot : bool) (t : tree) : list event :=
           | [] => []
           | _ :: _ => PushToChild n i (tid c) ++ upd_1bond (tid c) n i ++ fwd2 tau false c
           end)
-         ++ [Evolve2 (tid c) tau; Split2 (tid c) n true] ++ upd_2site (tid c) (map tid (tch c)) n kn
+         ++ [Evolve2 (tid c) n tau; Split2 (tid c) n true] ++ upd_2site (tid c) (map tid (tch c)) n kn
          ++ (if isroot && (S i =? length ch)%nat then [] else Evolve1 n (- tau) :: upd_1site n kn)
          ++ go (S i) l'
        end) O ch
@@ -210,7 +228,7 @@ Fixpoint bwd2 (tau : Z) (isroot : bool) (t : tree) : list event :=
        | c :: l' =>
          go (S i) l' ++
          (if isroot && (S i =? length ch)%nat then [] else Evolve1 n (- tau) :: upd_1site n kn)
-         ++ [Evolve2 (tid c) tau; Split2 (tid c) n (is_nil (tch c))] ++ upd_2site (tid c) (map tid (tch c)) n kn
+         ++ [Evolve2 (tid c) n tau; Split2 (tid c) n (is_nil (tch c))] ++ upd_2site (tid c) (map tid (tch c)) n kn
          ++ (match tch c with
              | [] => []
              | _ :: _ => bwd2 tau false c ++ PushToParent (tid c) n ++ upd_1bond (tid c) n i
@@ -223,7 +241,7 @@ Definition ps2_step (h : Z) (t : tree) : list event := fwd2 h true t ++ bwd2 h t
 
 (* ------------------------------------------------------------------ projections, mirror *)
 Definition is_evolve (e : event) : bool :=
-  match e with Evolve1 _ _ | Evolve0 _ _ | Evolve2 _ _ => true | _ => false end.
+  match e with Evolve1 _ _ | Evolve0 _ _ | Evolve2 _ _ _ => true | _ => false end.
 Definition evolves (l : list event) : list event := filter is_evolve l.
 Definition is_env (e : event) : bool :=
   match e with EnvChild _ | EnvParent _ _ _ => true | _ => false end.
@@ -256,7 +274,7 @@ Definition ev1_of (l : list event) : list (nat * Z) :=
 Definition ev0_of (l : list event) : list (nat * Z) :=
   flat_map (fun e => match e with Evolve0 n t => [(n, t)] | _ => [] end) l.
 Definition ev2_of (l : list event) : list (nat * Z) :=
-  flat_map (fun e => match e with Evolve2 n t => [(n, t)] | _ => [] end) l.
+  flat_map (fun e => match e with Evolve2 n _ t => [(n, t)] | _ => [] end) l.
 Definition time_at (n : nat) (l : list (nat * Z)) : Z :=
   fold_right (fun x a => if (fst x =? n)%nat then snd x + a else a) 0 l.
 
@@ -305,20 +323,10 @@ Definition cstep (T : tree) (s : cst) (e : event) : option cst :=
     then Some (touch T n s) else None
   | Evolve0 c _ =>
     if loc_eqb (c_loc s) (OnBond c) && c_ec s c && c_ep s c then Some s else None
-  | Evolve2 c _ =>
-    match find_sub c T with
-    | None => None
-    | Some _ =>
-      (* the parent is identified by the following Split2 ; here: some p with c among its children *)
-      let ps := filter (fun p => memn c (kids T p)) (ids T) in
-      match ps with
-      | p :: _ =>
-        if (loc_eqb (c_loc s) (AtNode c) || loc_eqb (c_loc s) (AtNode p))
-           && forallb (c_ec s) (kids T c) && forallb (c_ec s) (others c (kids T p)) && ep_ok T s p
-        then Some s else None
-      | [] => None
-      end
-    end
+  | Evolve2 c p _ =>
+    if (loc_eqb (c_loc s) (AtNode c) || loc_eqb (c_loc s) (AtNode p)) && memn c (kids T p)
+       && forallb (c_ec s) (kids T c) && forallb (c_ec s) (others c (kids T p)) && ep_ok T s p
+    then Some s else None
   | Split2 c p b =>
     if (loc_eqb (c_loc s) (AtNode c) || loc_eqb (c_loc s) (AtNode p)) && memn c (kids T p)
     then Some (set_loc (AtNode (if b then p else c)) (touch T p (touch T c s))) else None
@@ -374,7 +382,7 @@ Definition cstep_loc (l : loc) (e : event) : option loc :=
   | AbsorbUp c p => if loc_eqb l (OnBond c) then Some (AtNode p) else None
   | QRDown p i c => if loc_eqb l (AtNode p) then Some (OnBond c) else None
   | AbsorbDown p i c => if loc_eqb l (OnBond c) then Some (AtNode c) else None
-  | Evolve2 c _ => Some l
+  | Evolve2 c p _ => if loc_eqb l (AtNode c) || loc_eqb l (AtNode p) then Some l else None
   | Split2 c p b => Some (AtNode (if b then p else c))
   | EnvChild _ | EnvParent _ _ _ => Some l
   end.
